@@ -347,6 +347,12 @@ func (s *Session) execXA(verb, id, rest string, je *JournalEntry) []result {
 			return rmfail(b.state)
 		}
 		b.state = "PREPARED"
+		if e.Version >= "8.0.29" {
+			// xa_detach_on_prepare (default ON from 8.0.29): the branch leaves the session, which is free for other work;
+			// any session may finish it
+			s.xaID = ""
+			s.tx = nil
+		}
 		return []result{{}}
 	case "COMMIT", "ROLLBACK":
 		b := e.xa[id]
@@ -900,6 +906,10 @@ func (s *Session) execInsert(x *ast.InsertStmt, args []interface{}, now time.Tim
 			}
 			if me := s.lockRow(t, dupKey); me != nil {
 				return one(me)
+			}
+			if dupKey != key {
+				// the duplicate is on a secondary unique key: the statement selected that row
+				je.Matched = append(je.Matched, dupKey)
 			}
 			old, _ := s.getRow(t, dupKey)
 			nr := make([]interface{}, len(old))
